@@ -57,7 +57,7 @@ class OggVorbisInfo(StreamInfo):
         page = OggPage(fileobj)
         if not page.packets:
             raise OggVorbisHeaderError("page has not packets")
-        while not page.packets[0].startswith(b"\x01vorbis"):
+        while not (page.packets and page.packets[0].startswith(b"\x01vorbis")):
             page = OggPage(fileobj)
         if not page.first:
             raise OggVorbisHeaderError(
@@ -121,7 +121,7 @@ class OggVCommentDict(VCommentDict):
         # plus grab any stray setup packet data out of them.
         fileobj.seek(0)
         page = OggPage(fileobj)
-        while not page.packets[0].startswith(b"\x03vorbis"):
+        while not (page.packets and page.packets[0].startswith(b"\x03vorbis")):
             page = OggPage(fileobj)
 
         old_pages = [page]
